@@ -217,7 +217,8 @@ class ModelCacheMixin:
     def split(self):
         results = super().split()
         for r in results:
-            r._models = {m.filter(r.variables) for m in self._models}
+            # a part may already hold the model (and the exhausted marks) of the trivial-model optimization
+            r._models |= {m.filter(r.variables) for m in self._models}
         return results
 
     def combine(self, others):
